@@ -119,6 +119,15 @@ func pinned(j *job.Job, s *job.Sink, c int64) {
 		texts = append(texts, [2]string{"a@" + rv + ".yang", fmt.Sprintf("module a { yang-version 1.1; namespace \"urn:a\"; prefix a; revision %s; identity root;%s }", rv, extra)})
 	}
 	latest := revs[len(revs)-1]
+	// One set in four is on the error side: the oldest revision (which also includes a
+	// submodule, so that it has include statements) is pinned by an importer whose base names
+	// the identity that only the newest revision defines. That base is undefined.
+	danglingPinned := r.Intn(4) == 0
+	if danglingPinned {
+		texts[0][1] = strings.Replace(texts[0][1], "identity root;", "include asub; identity root;", 1)
+		texts = append(texts, [2]string{"asub.yang", "submodule asub { yang-version 1.1; belongs-to a { prefix a; } identity insub { base root; } }"})
+		texts = append(texts, [2]string{"zbad.yang", fmt.Sprintf("module zbad { yang-version 1.1; namespace \"urn:zbad\"; prefix zbad; import a { prefix old; revision-date %s; } identity y { base old:newest; } }", revs[0])})
+	}
 	refWant := map[string]string{} // leaf name -> revision its identityref must point at
 	nimp := 1 + r.Intn(3)
 	for i := 0; i < nimp; i++ {
@@ -163,7 +172,16 @@ func pinned(j *job.Job, s *job.Sink, c int64) {
 		if !ok {
 			return
 		}
-		if errs := ms.Process(); len(errs) > 0 {
+		errs := ms.Process()
+		if danglingPinned {
+			s.Count("error_side_graphs", 1)
+			if len(errs) == 0 {
+				s.Violation(c, j.CaseID(c), "C11.closure", "unreported:dangling-prefixed-base", "the base old:newest is not defined in the revision of a that the import names, and Process reported nothing", cs, nil)
+				return
+			}
+			continue
+		}
+		if len(errs) > 0 {
 			s.Violation(c, j.CaseID(c), "C11.closure", "spurious-error", fmt.Sprintf("revision-pinned bases: %v", errs[0]), cs, nil)
 			return
 		}
